@@ -224,5 +224,30 @@ theorem exit_trace {tr : List String} {e : Ending} (hx : Exec Gen.mainLoop tr e)
   subst he
   simpa using h
 
+/-! ### `did_fix_geom` is read only behind "the geometry call returned no exit object" -/
+
+/-- 0: no geometry call yet; 1: `check_and_fix_geometry` called, `exit_info` not tested since; 2: tested `is None` since;
+    3: a `did_fix_geom` test that held was reached in another state -/
+def mGeomGuard : Mon Nat := ⟨fun q a =>
+  if q == 3 then 3
+  else if a == "geom" then 1
+  else if a == "F:exit_info is not None" then (if q == 1 then 2 else q)
+  else if a == "T:did_fix_geom" then (if q == 2 then 2 else 3)
+  else q⟩
+
+theorem geomguard_inert : ∀ a ∈ repActs Gen.mainLoop, ∀ q, mGeomGuard.step q a = q := by
+  have h : repActs Gen.mainLoop = ["smp"] := by decide +kernel
+  rw [h]; intro a ha q; simp at ha; subst ha
+  simp only [mGeomGuard]
+  split <;> simp_all
+
+theorem geomguard_all : allReach mGeomGuard Gen.mainLoop 0 (fun q _ => q != 3) = true := by decide +kernel
+
+/-- on every execution of the loop body, a `did_fix_geom` test that holds is reached only after `check_and_fix_geometry` was
+    called and `exit_info is not None` was found false since -/
+theorem geomguard_trace {tr : List String} {e : Ending} (hx : Exec Gen.mainLoop tr e) : mGeomGuard.run 0 tr ≠ 3 := by
+  have h := all_paths mGeomGuard Gen.mainLoop 0 _ geomguard_inert geomguard_all hx
+  simpa using h
+
 end MainLoopPaths
 end Dfols
